@@ -28,6 +28,7 @@ class GenCfg:
         self.overrides = 0.04
         self.lookaheads = 0.06
         self.skipto = 0.02
+        self.assoc = 0.0          # left / right joins (sep<{e}+ , sep>{e}+)
         self.reps = 0.14
         self.consts = 0.03
         self.dots = 0.02
@@ -64,8 +65,8 @@ def gen_exp(rng: random.Random, cfg: GenCfg, depth: int, rules_fwd: list[str], r
     if depth <= 0:
         return leaf()
     sub = lambda d=depth - 1: gen_exp(rng, cfg, d, rules_fwd, rules_back, consumed)
-    kinds = ['leaf', 'seq', 'choice', 'opt', 'rep', 'named', 'over', 'look', 'skipto', 'group', 'skipgroup']
-    weights = [0.20, 0.24, 0.14, 0.07, cfg.reps, cfg.names, cfg.overrides, cfg.lookaheads, cfg.skipto, 0.04, 0.02]
+    kinds = ['leaf', 'seq', 'choice', 'opt', 'rep', 'named', 'over', 'look', 'skipto', 'group', 'skipgroup', 'assoc']
+    weights = [0.20, 0.24, 0.14, 0.07, cfg.reps, cfg.names, cfg.overrides, cfg.lookaheads, cfg.skipto, 0.04, 0.02, cfg.assoc]
     k = rng.choices(kinds, weights)[0]
     if k == 'leaf':
         return leaf()
@@ -101,6 +102,8 @@ def gen_exp(rng: random.Random, cfg: GenCfg, depth: int, rules_fwd: list[str], r
         return ('look', rng.random() < 0.5, sub())
     if k == 'skipto':
         return ('skipto', sub(0))
+    if k == 'assoc':
+        return ('assoc', rng.random() < 0.5, ('tok', rng.choice([',', '+'])) if rng.random() < 0.8 else sub(0), sub())
     if k == 'group':
         return ('group', sub())
     return ('skipgroup', sub())
@@ -126,6 +129,8 @@ def surely_consumes(e) -> bool:
         return surely_consumes(e[2])
     if k == 'rep':
         return e[1] and surely_consumes(e[4])
+    if k == 'assoc':
+        return surely_consumes(e[3])
     return False
 
 
@@ -174,9 +179,12 @@ def sample_sentence(rng: random.Random, g, e, depth=3) -> list[str]:
         return sample_sentence(rng, g, e[1], depth)
     if k == 'opt':
         return sample_sentence(rng, g, e[1], depth) if rng.random() < 0.6 else []
+    if k == 'assoc':
+        e = ('rep', True, e[2], False, e[3])
+        k = 'rep'
     if k == 'rep':
         _, plus, sep, omit, x = e
-        n = rng.choice([0, 1, 1, 2, 3]) if not plus else rng.choice([1, 1, 2, 3])
+        n = rng.choice([0, 1, 1, 2, 3]) if not plus else rng.choice([1, 1, 2, 3, 4])
         out = []
         for i in range(n):
             if i > 0 and sep is not None:
